@@ -437,6 +437,24 @@ def dir_holders(m, site_kind):
     return out
 
 
+def rename_directive(m, old, new):
+    """rename a directive: its definition and every application (anything that carries a `dirs` list, at any depth)"""
+    def walk(x):
+        if isinstance(x, dict):
+            if x.get("k") == "directive" and x.get("name") == old and "locations" in x:
+                x["name"] = new
+            for k, v in x.items():
+                if k == "dirs" and isinstance(v, list):
+                    for a in v:
+                        if a.get("name") == old:
+                            a["name"] = new
+                walk(v)
+        elif isinstance(x, list):
+            for v in x:
+                walk(v)
+    walk(m)
+
+
 def rename_type(m, old, new):
     def ty(t):
         while t["k"] != "named":
